@@ -40,15 +40,19 @@ def register(PROPS):
                         'lists <= 2 and 4 streams with lists <= 1, rrules family with 2 rules, with mid-way frees',
         },
         'drivers': [
-            D('c03_mux', ['fam=plain', 'nmax=3', 'lmax=2'], ['fam=plain', 'nmax=4', 'lmax=3', '--deadline', '480'], label='plain'),
-            D('c03_mux', ['fam=rr', 'nmin=2', 'nmax=2'], ['fam=rr', 'nmin=2', 'nmax=3', '--deadline', '480'], label='rrules'),
-            D('c03_mux', ['fam=plain', 'nmax=3', 'lmax=1', 'freeat=1'], ['fam=plain', 'nmax=3', 'lmax=2', 'freeat=1', '--deadline', '480'],
+            D('c03_mux', ['fam=plain', 'nmax=3', 'lmax=2'], ['fam=plain', 'nmax=3', 'lmax=3', '--deadline', '420'], label='plain'),
+            # four streams: echs_evstrm_mux() overruns its 24-byte array from the 4th stream on (known finding); what a plain build does
+            # after that is not reproducible, so that constructor gets its 4-stream configurations under ASan only (below)
+            D('c03_mux', ['fam=plain', 'nmin=4', 'nmax=4', 'lmax=3', 'paths=vmux,nest,nestr,onefile,files', '--deadline', '420'],
+              label='plain-n4', tiers=('thorough',)),
+            D('c03_mux', ['fam=rr', 'nmin=2', 'nmax=2'], ['fam=rr', 'nmin=2', 'nmax=3', '--deadline', '420'], label='rrules'),
+            D('c03_mux', ['fam=plain', 'nmax=3', 'lmax=1', 'freeat=1'], ['fam=plain', 'nmax=3', 'lmax=2', 'freeat=1', '--deadline', '420'],
               label='plain-asan', variant='asan', env=ASAN_ENV),
             D('c03_mux', ['fam=plain', 'nmin=4', 'nmax=4', 'lmax=1', 'paths=vmux,mux', 'freeat=1'],
-              ['fam=plain', 'nmin=4', 'nmax=4', 'lmax=1', 'freeat=1', '--deadline', '480'],
+              ['fam=plain', 'nmin=4', 'nmax=4', 'lmax=1', 'freeat=1', '--deadline', '420'],
               label='plain-n4-asan', variant='asan', env=ASAN_ENV),
             D('c03_mux', ['fam=rr', 'nmin=2', 'nmax=2', 'rdmasks=0,2,7', 'xmasks=0,2,7', 'freeat=1'],
-              ['fam=rr', 'nmin=2', 'nmax=2', 'freeat=1', '--deadline', '480'], label='rrules-asan', variant='asan', env=ASAN_ENV),
+              ['fam=rr', 'nmin=2', 'nmax=2', 'freeat=1', '--deadline', '420'], label='rrules-asan', variant='asan', env=ASAN_ENV),
         ],
         'assumptions': [
             'constituents are explicit lists: DTSTART equals the first listed instant and is repeated in the RDATE list, so the question '
